@@ -117,8 +117,17 @@ def job_done(cname, timeout_ms):
         if r.kind != "return":
             return [("no-exception", [], z3.BoolVal(False))]
         o, d = r.value
+        # the class's DOCUMENTED early-stop criteria (the ones whose "vanishes only at a fixed point / breakdown" clause is treated
+        # under job_earlystop); a class without an entry may stop only when its iteration budget is used up.  A new criterion in
+        # _done is flagged here until it is added to this table together with its fixed-point argument.
+        crit = {"GradientMethod": lambda: (o.resid <= o.tol), "PrimalDualHybridGradient": lambda: (o.resid <= o.tol),
+                "ConjugateGradient": lambda: core.SymBool(z3.Or(core._lb(o.not_positive_definite), core._lb(o.resid <= o.tol))),
+                "NewtonsMethod": lambda: (o.residual <= o.tol), "GerchbergSaxton": lambda: (o.residual <= o.tol),
+                "SDMM": lambda: o.stop}.get(cname)
+        allowed = z3.Or(o.iter.t >= o.max_iter.t, core._lb(crit())) if crit else (o.iter.t >= o.max_iter.t)
         return [("iter>=max_iter=>done", [o.iter.t >= o.max_iter.t], as_bool(d)),
-                ("loop-invariant:not-done=>iter+1<=max_iter", [z3.Not(as_bool(d))], o.iter.t + 1 <= o.max_iter.t)]
+                ("loop-invariant:not-done=>iter+1<=max_iter", [z3.Not(as_bool(d))], o.iter.t + 1 <= o.max_iter.t),
+                ("done=>budget-used-up-or-a-documented-stopping-criterion", [as_bool(d)], allowed)]
     obs, covers = path_obligations("C15/done/%s" % cname, results, post, instance=cname, fn_record=rec)
     return check_obligations(obs, timeout_ms) + covers
 
